@@ -1,4 +1,5 @@
 """C11 — finiteness and continuity across removable singularities (DESIGN §5 C11)."""
+import os
 from lib import simple
 
 HARNESSES = {"c11_continuity": {}}
@@ -14,7 +15,7 @@ def run(chk):
                        "paths whose end points differ by more than 20% of the magnitude are inconclusive, as the property says",
                        "failures within 3e-3 of the listed singular configurations (Kaellen(S,H+,W)=0, mH+=MW, mh=2MW, quark thresholds) carry the key of that known finding"]
     quick = chk.tier == "quick"
-    n = simple.run(chk, "c11_continuity", 480, 6000, HARNESSES["c11_continuity"], args=(["--maxclasses", "160", "--maxpaths", "120"] if quick else []), timeout=7200)
+    n = simple.run(chk, "c11_continuity", 480, 6000, HARNESSES["c11_continuity"], args=((["--maxclasses", "160", "--maxpaths", "120"] if quick else []) + (["--literal", "1"] if os.environ.get("C11_LITERAL") else [])), timeout=7200)
     chk.min_conclusive = n // 3
     chk.min_cells = 500
     chk.required_cells = ["THDM|2LB|mA=mHp+MW", "THDM|2LF_charged|mHp=m_u2", "THDM|1L|mH=mA", "MSSM|1Lchi0|mchi0=msmu", "MSSM|2LaCha|2mcha", "MSSM|1Lchipm|mcha0=msnu"]
